@@ -185,6 +185,6 @@ def check_any(ctx, case):
 
 
 FAMILIES = [
-    Family('spellings', check_any, strategy=lambda tier: spelling_case(), n=(800, 16000)),
+    Family('spellings', check_any, strategy=lambda tier: spelling_case(), n=(800, 32000)),
     Family('exhaustive-permutations', check_any, enumerate=enum_perms),
 ]
